@@ -27,6 +27,8 @@ def get_class(spec, cache=True):
         attrs = {}
         if spec.get("sig"):
             attrs["signature"] = tuple(spec["sig"])
+        if spec.get("cutter"):
+            attrs["cutter"] = getattr(Restriction, spec["cutter"])
         cls = type(str(spec["name"]), (get_class(spec["parent"], cache),), attrs)
     else:
         base = AbstractModule if spec["role"] == "module" else AbstractVector
@@ -34,7 +36,7 @@ def get_class(spec, cache=True):
         if kind == "generic":
             cls = type(str("G_%s_%s" % (spec["role"], spec["enzyme"])), (base,), {"cutter": cutter})
         elif kind == "part":
-            cls = type(str("P_%s_%s" % (spec["role"], spec["enzyme"])), (AbstractPart, base),
+            cls = type(str(spec.get("name") or "P_%s_%s" % (spec["role"], spec["enzyme"])), (AbstractPart, base),
                        {"cutter": cutter, "signature": tuple(spec["sig"])})
         elif kind == "custom":
             text = spec["structure"]
@@ -45,6 +47,18 @@ def get_class(spec, cache=True):
     if cache:
         _CLASSES[key] = cls
     return cls
+
+
+def prime_bases(cls, seq):
+    """type the record with every concrete base class of cls first (a parent before its subclass)"""
+    from moclo._utils import isabstract
+    for b in cls.__mro__[1:]:
+        if b is object or not hasattr(b, "structure") or isabstract(b):
+            continue
+        try:
+            b(mk_circular(seq, "prime")).is_valid()
+        except Exception:  # noqa
+            pass
 
 
 def mk_circular(seq, id_="rec", features=None, annotations=None):
@@ -117,7 +131,8 @@ def observe_assembly(vector, modules, **kw):
             if k == "duplicate":
                 ids = []
                 for d in e.duplicates:
-                    ids.append([i for i, m in enumerate(modules) if m is d][0])
+                    found = [i for i, m in enumerate(modules) if m is d]
+                    ids.append(found[0] if found else -1)       # -1: not one of the supplied modules
                 out["ids"] = ids
             elif k == "missing":
                 out["oh"] = str(e.start_overhang)
